@@ -7,7 +7,7 @@ The translated predicates themselves (`shardIsExpired`, `nilShardIsExpired`, `wr
 `writeRejected`, `groupOverlaps`) are checked by the theorems of `Props.lean` and by the closed
 forms below.
 -/
-import OG.C14.Model
+import OG.C14.Lemmas
 
 namespace OG.C14.Facts
 open OG.Gen.C14
@@ -30,7 +30,7 @@ theorem src_DeleteShardOrIndex_expected : src_DeleteShardOrIndex = "{ pdInfo := 
 
 theorem src_DeleteShardGroup_expected : src_DeleteShardGroup = "{ rpi, err := data.RetentionPolicy(database, policy) if err != nil { return err } for i := range rpi.ShardGroups { if rpi.ShardGroups[i].ID == id { if deleteType == CancelDelete { rpi.ShardGroups[i].DeletedAt = time.Time{} } else { if deletedAt != 0 { rpi.ShardGroups[i].DeletedAt = time.Unix(0, deletedAt) } else { rpi.ShardGroups[i].DeletedAt = time.Now().UTC() } } break } } return nil }" := by rfl
 
-theorem src_pruneShardGroups_expected : src_pruneShardGroups = "{ data.WalkDatabases(func(db *DatabaseInfo) { db.WalkRetentionPolicy(func(rp *RetentionPolicyInfo) { var endTime int64 deleteSg := false for idx := 0; idx < len(rp.ShardGroups); { if id >= rp.ShardGroups[idx].Shards[0].ID && id <= rp.ShardGroups[idx].Shards[len(rp.ShardGroups[idx].Shards)-1].ID { pos := sort.Search(len(rp.ShardGroups[idx].Shards), func(i int) bool { return rp.ShardGroups[idx].Shards[i].ID >= id }) rp.ShardGroups[idx].Shards[pos].MarkDelete = true } if !rp.ShardGroups[idx].DeletedAt.IsZero() && rp.ShardGroups[idx].canDelete() { for _, mstInfo := range rp.Measurements { if mstInfo.InitNumOfShards == 0 { continue } delete(mstInfo.ShardIdexes, rp.ShardGroups[idx].ID) } if rp.ShardGroups[idx].EndTime.UnixNano() > endTime { endTime = rp.ShardGroups[idx].EndTime.UnixNano() } rp.ShardGroups = append(rp.ShardGroups[:idx], rp.ShardGroups[idx+1:]...) deleteSg = true } else { idx++ } } if SchemaCleanEn && deleteSg { data.SchemaClean(rp, endTime, db) } }) }) return nil }" := by rfl
+theorem src_pruneShardGroups_expected : src_pruneShardGroups = "{ data.WalkDatabases(func(db *DatabaseInfo) { db.WalkRetentionPolicy(func(rp *RetentionPolicyInfo) { var endTime int64 deleteSg := false for idx := 0; idx < len(rp.ShardGroups); { if id >= rp.ShardGroups[idx].Shards[0].ID && id <= rp.ShardGroups[idx].Shards[len(rp.ShardGroups[idx].Shards)-1].ID { pos := sort.Search(len(rp.ShardGroups[idx].Shards), func(i int) bool { return rp.ShardGroups[idx].Shards[i].ID >= id }) if rp.ShardGroups[idx].Shards[pos].ID == id { rp.ShardGroups[idx].Shards[pos].MarkDelete = true } } if !rp.ShardGroups[idx].DeletedAt.IsZero() && rp.ShardGroups[idx].canDelete() { for _, mstInfo := range rp.Measurements { if mstInfo.InitNumOfShards == 0 { continue } delete(mstInfo.ShardIdexes, rp.ShardGroups[idx].ID) } if rp.ShardGroups[idx].EndTime.UnixNano() > endTime { endTime = rp.ShardGroups[idx].EndTime.UnixNano() } rp.ShardGroups = append(rp.ShardGroups[:idx], rp.ShardGroups[idx+1:]...) deleteSg = true } else { idx++ } } if SchemaCleanEn && deleteSg { data.SchemaClean(rp, endTime, db) } }) }) return nil }" := by rfl
 
 theorem src_ShardGroupsByTimeRange_expected : src_ShardGroupsByTimeRange = "{ rpi, err := data.RetentionPolicy(database, policy) if err != nil { return nil, err } else if rpi == nil { return nil, ErrRetentionPolicyNotFound(policy) } groups := make([]ShardGroupInfo, 0, len(rpi.ShardGroups)) for _, g := range rpi.ShardGroups { if g.Deleted() || !g.Overlaps(tmin, tmax) { continue } groups = append(groups, g) } return groups, nil }" := by rfl
 
@@ -45,10 +45,13 @@ theorem src_HandleLocalStorage_shards_expected : src_HandleLocalStorage_shards =
 theorem durationInfos_assign_expected : durationInfos_assign = ["durationInfo.Ident.ShardID = sh.ID", "durationInfo.Ident.ShardGroupID = sg.ID", "durationInfo.Ident.EndTime = sg.EndTime", "durationInfo.DurationInfo.Duration = rp.Duration"] := by rfl
 
 /-- closed forms of the translated write-side test and of `Overlaps`. -/
-theorem writeMinTime_expected (nowSec d : Int) :
+theorem writeMinTime_expected (nowSec d : Int) (hn : 0 ≤ nowSec ∧ OG.C14.InI64 (nowSec * 1000000000)) (hd : OG.C14.InI64 d) :
     OG.C14.writeMinTime nowSec d = if d > 0 then nowSec * 1000000000 - d else 0 := by
   unfold OG.C14.writeMinTime
-  by_cases h : d > 0 <;> simp [h]
+  by_cases h : d > 0
+  · simp only [h, decide_true, if_true]
+    rw [OG.C14.wrap64_of_range hn.2, OG.C14.wrap64_of_range (by unfold OG.C14.InI64 at *; omega)]
+  · simp [h]
 
 theorem writeRejected_expected (ts m : Int) : OG.C14.writeRejected ts m = decide (ts < m) := by rfl
 
